@@ -927,4 +927,128 @@ theorem scan_none (v : Variant) (m : Char) (hm1 : m.utf8Size = 1) (src : List Ch
             · exact hruns s l ⟨hl, hle, hall, hright, hleft⟩ (by omega)
 
 
+
+/-! ## the rule once the first character is known -/
+
+theorem run_marker (v : Variant) (m : Char) {src : List Char} {pos posMax : Nat} (prev silent : Bool)
+    (c : Cache) {rest : List Char} (h : slice src pos posMax = some (m :: rest)) :
+    run v m src pos posMax prev silent c =
+      if v.inside = false ∧ prev = true then .ok (none, c)
+      else if v.inside = true ∧ c.insideFailed.contains pos = true then .ok (none, c)
+      else if consultable v pos posMax c = true then
+        match lookup v.checked c.max (1 + runLen m rest) with
+        | .error e => .error e
+        | .ok x =>
+          if x ≤ pos then .ok (none, markInside v pos (pos + 1 + runLen m rest) c)
+          else scan v m src pos posMax (1 + runLen m rest) (pos + 1 + runLen m rest)
+                 silent (pos + 1 + runLen m rest) c
+      else scan v m src pos posMax (1 + runLen m rest) (pos + 1 + runLen m rest)
+             silent (pos + 1 + runLen m rest) c := by
+  unfold run
+  simp only [h, ne_eq, not_true_eq_false, ite_false]
+  rfl
+
+theorem run_other (v : Variant) (m : Char) {src : List Char} {pos posMax : Nat} (prev silent : Bool)
+    (c : Cache) {ch : Char} {rest : List Char} (h : slice src pos posMax = some (ch :: rest))
+    (hch : ch ≠ m) : run v m src pos posMax prev silent c = .ok (none, c) := by
+  unfold run
+  simp only [h, hch, ne_eq, not_false_eq_true, ite_true]
+
+/-- the ways a call can return -/
+inductive Path (v : Variant) (m : Char) (src : List Char) (pos posMax : Nat) (prev silent : Bool)
+    (c : Cache) (r : Option Outcome) (c' : Cache) : Prop
+  /-- the first character is not the marker -/
+  | other (ch : Char) (rest : List Char) : slice src pos posMax = some (ch :: rest) → ch ≠ m →
+      r = none → c' = c → Path v m src pos posMax prev silent c r c'
+  /-- (before the repair) the trailing text of the tree ends in the marker -/
+  | prevGuard (rest : List Char) : slice src pos posMax = some (m :: rest) →
+      v.inside = false → prev = true → r = none → c' = c → Path v m src pos posMax prev silent c r c'
+  /-- the position is remembered as lying inside a failed opener -/
+  | inside (rest : List Char) : slice src pos posMax = some (m :: rest) →
+      v.inside = true → c.insideFailed.contains pos = true → r = none → c' = c →
+      Path v m src pos posMax prev silent c r c'
+  /-- the closer table says there is no closer -/
+  | consult (rest : List Char) (x : Nat) : slice src pos posMax = some (m :: rest) →
+      ¬ (v.inside = true ∧ c.insideFailed.contains pos = true) →
+      consultable v pos posMax c = true → lookup v.checked c.max (1 + runLen m rest) = .ok x →
+      x ≤ pos → r = none → c' = markInside v pos (pos + 1 + runLen m rest) c →
+      Path v m src pos posMax prev silent c r c'
+  /-- the loop ran -/
+  | scanned (rest : List Char) : slice src pos posMax = some (m :: rest) →
+      ¬ (v.inside = true ∧ c.insideFailed.contains pos = true) →
+      scan v m src pos posMax (1 + runLen m rest) (pos + 1 + runLen m rest) silent
+        (pos + 1 + runLen m rest) c = .ok (r, c') →
+      Path v m src pos posMax prev silent c r c'
+
+theorem run_path {v : Variant} {m : Char} {src : List Char} {pos posMax : Nat} {prev silent : Bool}
+    {c : Cache} {r : Option Outcome} {c' : Cache}
+    (h : run v m src pos posMax prev silent c = .ok (r, c')) :
+    Path v m src pos posMax prev silent c r c' := by
+  cases hu : slice src pos posMax with
+  | none => simp [run, hu] at h
+  | some u =>
+    cases u with
+    | nil => simp [run, hu] at h
+    | cons ch rest =>
+      by_cases hch : ch = m
+      · subst hch
+        rw [run_marker v ch prev silent c hu] at h
+        split at h
+        · rename_i hc; cases h; exact .prevGuard rest hu hc.1 hc.2 rfl rfl
+        · split at h
+          · rename_i hc; cases h; exact .inside rest hu hc.1 hc.2 rfl rfl
+          · rename_i hni
+            split at h
+            · rename_i hcons
+              split at h
+              · cases h
+              · rename_i x hx
+                split at h
+                · rename_i hle; cases h; exact .consult rest x hu hni hcons hx hle rfl rfl
+                · exact .scanned rest hu hni h
+            · exact .scanned rest hu hni h
+      · rw [run_other v m prev silent c hu hch] at h
+        cases h; exact .other ch rest hu hch rfl rfl
+
+theorem charAt_boundary {src : List Char} {i : Nat} {ch : Char} (h : charAt src i = some ch) :
+    isBoundary src (i + ch.utf8Size) = true := by
+  unfold charAt at h
+  cases hd : dropB src i with
+  | none => simp [hd] at h
+  | some t =>
+    cases t with
+    | nil => simp [hd] at h
+    | cons d t =>
+      simp [hd] at h; subst h
+      obtain ⟨x, hx, hxl⟩ := dropB_some hd
+      have : i + d.utf8Size = byteLen (x ++ [d]) := by simp [byteLen_append, byteLen, hxl]
+      rw [this, hx, show x ++ d :: t = (x ++ [d]) ++ t by simp]
+      exact isBoundary_append _ _
+
+/-- **C01 (progress).** `Some(len)` ⇒ the construct spans at least the opener and the closer
+    (`len ≥ 2`), stays inside `pos_max`, and `pos + len` is a char boundary — so the inline loop's
+    measure `pos_max - pos` decreases and the next slice is legal. Every variant, every cache. -/
+theorem codepair_progress (v : Variant) (m : Char) (hm1 : m.utf8Size = 1) (src : List Char)
+    (pos posMax : Nat) (prev silent : Bool) (c : Cache) (o : Outcome) (c' : Cache)
+    (h : run v m src pos posMax prev silent c = .ok (some o, c')) :
+    2 ≤ o.len ∧ pos + o.len ≤ posMax ∧ isBoundary src (pos + o.len) = true := by
+  cases run_path h with
+  | other _ _ _ _ hr _ => cases hr
+  | prevGuard _ _ _ _ hr _ => cases hr
+  | inside _ _ _ _ hr _ => cases hr
+  | consult _ _ _ _ _ _ _ hr _ => cases hr
+  | scanned rest hu _ hs =>
+    obtain ⟨x, T, Z, _, hT, _, _, f⟩ := run_frame hm1 hu
+    obtain ⟨ms, R, hms, hrun, _, ho, _, _⟩ :=
+      scan_some v m hm1 src pos _ posMax _ silent _ Z T [] _ c o c' f hT hs
+    obtain ⟨hl, hle, hall, _, _⟩ := hrun
+    have hb := charAt_boundary (hall (ms + (1 + runLen m rest) - 1) (by omega) (by omega))
+    rw [hm1] at hb
+    subst ho
+    simp only
+    refine ⟨by omega, by omega, ?_⟩
+    have e : pos + (ms + (1 + runLen m rest) - pos) = ms + (1 + runLen m rest) - 1 + 1 := by omega
+    rw [e]; exact hb
+
+
 end MdIt.CodePair
